@@ -528,6 +528,11 @@ func checkTACapacity(e *executor, r *stepResult) *vfkit.Violation {
 			if !okCnt && len(c.FailedReqs) > 0 {
 				saved := c.ReqMilli
 				for _, fr := range c.FailedReqs {
+					if fr == saved {
+						// the request in force was refused once: the retry that "succeeded"
+						// was short-circuited as identical to the stored, refused requirements
+						sigE = "grant-follows-the-request-of-a-refused-UpdateContainer"
+					}
 					c.ReqMilli = fr
 					for _, w := range e.refExclusive(c) {
 						if w == got {
